@@ -136,7 +136,7 @@ sp_ztrsv(char *uplo, char *trans, char *diag, SuperMatrix *L,
 	
 	if ( strncmp(uplo, "L", 1)==0 ) {
 	    /* Form x := inv(L)*x */
-    	    if ( L->nrow == 0 ) return 0; /* Quick return */
+    	    if ( L->nrow == 0 ) { SUPERLU_FREE(work); return 0; } /* Quick return */
 	    
 	    for (k = 0; k <= Lstore->nsuper; k++) {
 		fsupc = L_FST_SUPC(k);
@@ -192,7 +192,7 @@ sp_ztrsv(char *uplo, char *trans, char *diag, SuperMatrix *L,
 	} else {
 	    /* Form x := inv(U)*x */
 	    
-	    if ( U->nrow == 0 ) return 0; /* Quick return */
+	    if ( U->nrow == 0 ) { SUPERLU_FREE(work); return 0; } /* Quick return */
 	    
 	    for (k = Lstore->nsuper; k >= 0; k--) {
 	    	fsupc = L_FST_SUPC(k);
@@ -240,7 +240,7 @@ sp_ztrsv(char *uplo, char *trans, char *diag, SuperMatrix *L,
 	
 	if ( strncmp(uplo, "L", 1)==0 ) {
 	    /* Form x := inv(L')*x */
-    	    if ( L->nrow == 0 ) return 0; /* Quick return */
+    	    if ( L->nrow == 0 ) { SUPERLU_FREE(work); return 0; } /* Quick return */
 	    
 	    for (k = Lstore->nsuper; k >= 0; --k) {
 	    	fsupc = L_FST_SUPC(k);
@@ -278,7 +278,7 @@ sp_ztrsv(char *uplo, char *trans, char *diag, SuperMatrix *L,
 	    }
 	} else {
 	    /* Form x := inv(U')*x */
-	    if ( U->nrow == 0 ) return 0; /* Quick return */
+	    if ( U->nrow == 0 ) { SUPERLU_FREE(work); return 0; } /* Quick return */
 	    
 	    for (k = 0; k <= Lstore->nsuper; k++) {
 	    	fsupc = L_FST_SUPC(k);
@@ -318,7 +318,7 @@ sp_ztrsv(char *uplo, char *trans, char *diag, SuperMatrix *L,
 	
 	if ( strncmp(uplo, "L", 1)==0 ) {
 	    /* Form x := conj(inv(L'))*x */
-    	    if ( L->nrow == 0 ) return 0; /* Quick return */
+    	    if ( L->nrow == 0 ) { SUPERLU_FREE(work); return 0; } /* Quick return */
 	    
 	    for (k = Lstore->nsuper; k >= 0; --k) {
 	    	fsupc = L_FST_SUPC(k);
@@ -357,7 +357,7 @@ sp_ztrsv(char *uplo, char *trans, char *diag, SuperMatrix *L,
 	    }
 	} else {
 	    /* Form x := conj(inv(U'))*x */
-	    if ( U->nrow == 0 ) return 0; /* Quick return */
+	    if ( U->nrow == 0 ) { SUPERLU_FREE(work); return 0; } /* Quick return */
 	    
 	    for (k = 0; k <= Lstore->nsuper; k++) {
 	    	fsupc = L_FST_SUPC(k);
